@@ -23,10 +23,10 @@ THERMO_FIELDS = ["x_velocity", "temp"] + ["Y(%s)" % s for s in SPECIES] + ["extr
 PRESSURE_ATM = 1.5
 
 
-def cfg(**c):
+def cfg(names='<<"a","b","c">>', **c):
     base = dict(W=2, SchedMode='"fifo"', NamesOrder='"kept_first"', MapOrder='"disk"', NNewSet="{1,2}")
     base.update(c)
-    return {"INIT": "Init", "NEXT": "Next", "DEFS": {"Names": '<<"a","b","c">>'}, "CONSTANTS": base,
+    return {"INIT": "Init", "NEXT": "Next", "DEFS": {"Names": names}, "CONSTANTS": base,
             "INVARIANTS": INV, "PROPERTIES": ["InputUnchanged"]}
 
 
@@ -35,8 +35,11 @@ def models(tier):
         return [("content", cfg(MaxLev=2, MaxBox=2, MaxFile=2)),
                 ("schedules", cfg(MaxLev=1, MaxBox=3, MaxFile=3, SchedMode='"all"')),
                 ("per-species recipe over all species", cfg(MaxLev=1, MaxBox=2, MaxFile=2, NNewSet="{10}")),
-                ("three new components", cfg(MaxLev=1, MaxBox=2, MaxFile=2, NNewSet="{3}"))]
-    return [("content", cfg(MaxLev=2, MaxBox=3, MaxFile=2)),
+                ("three new components", cfg(MaxLev=1, MaxBox=2, MaxFile=2, NNewSet="{3}")),
+                # every ordered kept list of up to three out of FOUR fields
+                ("kept lists of a four-field input", cfg('<<"a","b","c","d">>', MaxLev=1, MaxBox=1, MaxFile=1, NNewSet="{1}"))]
+    return [("kept lists of a four-field input", cfg('<<"a","b","c","d">>', MaxLev=1, MaxBox=2, MaxFile=2, NNewSet="{1}")),
+            ("content", cfg(MaxLev=2, MaxBox=3, MaxFile=2)),
             ("three new components", cfg(MaxLev=1, MaxBox=2, MaxFile=2, NNewSet="{3}")),
             ("schedules", cfg(MaxLev=2, MaxBox=3, MaxFile=3, SchedMode='"all"', W=3)),
             ("per-species recipe over all species", cfg(MaxLev=2, MaxBox=2, MaxFile=2, NNewSet="{10}"))]
@@ -199,11 +202,11 @@ def run_scenario(chk, sc, cfgseed, recipe, flavour="sched", workers=None, pressu
     # pairs, parentheses, dots; no blank: kept fields are given as one blank-separated string)
     nm = gamma.names_map(cfgseed, list(sc["fields"]), blanks=False)
     fields = THERMO_FIELDS if thermo else [nm[x] for x in sc["fields"]]
-    fmap = {1: 1, 2: 2, 3: len(fields)}          # abstract field position -> concrete position
+    fmap = {1: 1, 2: 2, 3: len(fields)} if len(sc["fields"]) <= 3 else {1: 1, 2: 2, 3: 3, 4: len(fields)}   # abstract -> concrete position
     nmap = {n: fields[fmap[i + 1] - 1] for i, n in enumerate(sc["fields"])}
     nmap["zz"] = "zz" if thermo else nm["zz"]
     ap = compare.ap_from_scenario("A", fields, sc["levels"], ndims=3)
-    d = chk.tmp()
+    d = chk.tmp_reuse()
     os.makedirs(d)
     src, out = os.path.join(d, "in"), os.path.join(d, "out")
     reg = gamma.write_plotfile(src, ap, cfg_, values=thermo_values(cfgseed) if thermo else None)
